@@ -98,7 +98,7 @@ theorem removal_immediate (st : AuthState) (r : Role) (a : Addr) :
 
 /-- the same with spellings: the table is keyed by the string it was given, the guard compares the
     stored strings with the signer's canonical string `c`.  If every entry of role `r` that matches `c`
-    is spelled `raw` (one spelling per account — what the matrix generates), removing `(r, raw)`
+    is spelled `raw`, removing `(r, raw)`
     makes the guard refuse `c`. -/
 theorem removal_immediate_spelled (st : AuthState) (r : Role) (raw c : Addr)
     (h : ∀ a', (r, a') ∈ st.admin → a' = c → a' = raw) :
@@ -136,24 +136,52 @@ theorem grant_exact (st : AuthState) (k : Role × Addr) (r : Role) (a : Addr) (h
 
 /-- over whole histories of the matrix: a message of an unauthorised signer leaves all three role
     stores as they were and is refused; in particular only ADMIN holders can ever change the table -/
-theorem step_refuses_unauthorised (st : AuthState) (h : Handler) (signer : Addr) (p : Option (Role × Addr))
-    (hno : holds st h.store h.role signer = false) : stepMsg st h signer p = (st, .err) := by
-  unfold stepMsg; simp [hno]
+theorem step_refuses_unauthorised (v : Bool) (st : AuthState) (h : Handler) (signer : Addr) (p : Option Payload)
+    (hno : holds st h.store h.role signer = false) : stepMsgV v st h signer p = (st, .err) := by
+  unfold stepMsgV; simp [hno]
 
-/-- removal then message, composed: after an accepted `RemoveAccount (r, a)`, the very next message
-    of `a` to any handler guarded by role `r` of the admin store is refused -/
-theorem removal_then_refused (st : AuthState) (rm h : Handler) (admin a : Addr) (r : Role)
-    (hrm : rm.module = "admin" ∧ rm.name = "RemoveAccount") (hh : h.store = .admin ∧ h.role = r)
-    (hacc : (stepMsg st rm admin (some (r, a))).2 = .ok) (p : Option (Role × Addr)) :
-    (stepMsg (stepMsg st rm admin (some (r, a))).1 h a p).2 = .err := by
-  by_cases hA : holds st rm.store rm.role admin = true
-  · have hs : stepMsg st rm admin (some (r, a)) = ({ st with admin := st.admin.remove (r, a) }, .ok) := by
-      unfold stepMsg; rw [if_pos hA]; simp [applyAdminMsg, hrm.1, hrm.2]
+/-- the two table messages validate the spelling of the account  [fails without the F24 repair] -/
+theorem table_messages_validate_spelling :
+    validatesSpelling "AddAccount" = true ∧ validatesSpelling "RemoveAccount" = true := by decide
+
+/-- every accepted grant names the account in its canonical spelling: the table only ever receives
+    canonical strings through messages -/
+theorem accepted_grant_is_canonical (st : AuthState) (h : Handler) (hh : h.module = "admin" ∧ h.name = "AddAccount")
+    (signer : Addr) (p : Payload) (hacc : (stepMsg st h signer (some p)).2 = .ok) : p.canon = some p.addr := by
+  unfold stepMsg stepMsgV at hacc
+  rw [hh.2, table_messages_validate_spelling.1] at hacc
+  split at hacc
+  · rename_i hc
+    simp only [Bool.and_eq_true, payloadOK, isTableMsg, hh.1, hh.2] at hc
+    simpa [Payload.canonical] using hc.2
+  · cases hacc
+
+/-- **removal_immediate**, without any restriction on spellings (F24): after an ACCEPTED
+    `RemoveAccount (r, spelling)`, the account that spelling denotes — whose `String()` is `c` — is refused
+    by the very next message to any handler guarded by role `r` of the admin store, whatever the table
+    held and under whichever spellings. -/
+theorem removal_then_refused (st : AuthState) (rm h : Handler) (admin : Addr) (p : Payload) (c : Addr)
+    (hrm : rm.module = "admin" ∧ rm.name = "RemoveAccount") (hh : h.store = .admin ∧ h.role = p.role)
+    (hc : p.canon = some c)
+    (hacc : (stepMsg st rm admin (some p)).2 = .ok) (q : Option Payload) :
+    (stepMsg (stepMsg st rm admin (some p)).1 h c q).2 = .err := by
+  unfold stepMsg stepMsgV at hacc
+  rw [hrm.2, table_messages_validate_spelling.2] at hacc
+  by_cases hA : (holds st rm.store rm.role admin && payloadOK true rm.module "RemoveAccount" (some p)) = true
+  · have hcan : p.addr = c := by
+      simp only [Bool.and_eq_true, payloadOK, isTableMsg, hrm.1] at hA
+      have := hA.2
+      simp [Payload.canonical, hc] at this
+      exact this.symm
+    have hs : stepMsg st rm admin (some p) = ({ st with admin := st.admin.remove (p.role, p.addr) }, .ok) := by
+      unfold stepMsg stepMsgV
+      rw [hrm.2, table_messages_validate_spelling.2, if_pos hA]; simp [applyAdminMsg, hrm.1]
     rw [hs]
-    have hno : holds { st with admin := st.admin.remove (r, a) } h.store h.role a = false := by
-      rw [hh.1, hh.2]; exact removal_immediate st r a
-    rw [step_refuses_unauthorised _ h a p hno]
-  · unfold stepMsg at hacc; rw [if_neg hA] at hacc; cases hacc
+    have hno : holds { st with admin := st.admin.remove (p.role, p.addr) } h.store h.role c = false := by
+      rw [hh.1, hh.2, hcan]; exact removal_immediate st p.role c
+    unfold stepMsg
+    rw [step_refuses_unauthorised _ _ h c q hno]
+  · rw [if_neg hA] at hacc; cases hacc
 
 /-! ### 3. the table, over the regenerated records -/
 
